@@ -13,7 +13,7 @@ func init() {
 	register(&PropertyDef{
 		ID:          "C09",
 		Title:       "Concurrent sends never reuse a counter, key or nonce; chain only moves forward",
-		Explanation: "Decides, for every schedule at once, the locking and arithmetic shape that makes counters unique: (D1) in SealEnvelope the read of the own chain key, the sealing (secretbox.Seal, Sign), the write of the next precomputed key and the write of the advanced chain key all happen with the secret store's message mutex write-held, acquired once before the first of them, with no release of that mutex anywhere in the code reachable from those steps; (D3) every Put on the chain-key namespace that can overwrite an existing entry is reached only on call paths holding that write lock (creation puts, dominated by the 'no chain key stored' outcome of a lookup, are exempt: they cannot overwrite); (D4) the updater of the stored chain key is monotone: evaluated abstractly over the orderings {new<stored, new=stored, new>stored} it never writes when new<stored and always writes when new>stored; (D6) the own chain key is looked up, generated on a miss and stored inside one write-locked critical section; the updater fails when it cannot read the stored key; (D5) the counter sealed into the headers and used as nonce is the stored counter + 1 and the chain key stored afterwards carries stored counter + 1 (same increment on both sides); (D7) the own chain key is created only when its lookup reported exactly the 'missing' sentinel (tested on the lookup's error directly, or handed on by a module helper as its 'not found, no error' outcome, every such return of the helper being itself on the sentinel side and the helper's error tested nil by the creator), and every function behind that lookup returns the sentinel only on the datastore's own not-found outcome (err == / errors.Is datastore.ErrNotFound) or after a successful read - an I/O fault or a cancelled context surfaces as a different error, so a transient read fault can never replace an advanced chain key by a fresh one at counter 0; (D8) the chain moves forward by SealEnvelope only: on every call path from OpenEnvelopePayload to an overwriting Put of a chain key the update is skipped when the sender decoded from headers.DevicePk equals the own-device parameter (or runs when that parameter is nil), and every module call of OpenEnvelopePayload passes as that parameter the Device() key of an OwnMemberDevice (through locals, fields and helpers) or nil - never Member() or a foreign key. A call through a local table of closures (a local composite literal of statically known functions that is only indexed, e.g. steps := []func() error{...}; for _, st := range steps { st() }) is resolved to its elements: the module call graph is completed with these edges before any rule runs, so lock contexts (D1/D3/D6), effect summaries and the D8 guard - which may sit inside an element closure and refer to captured, singly-assigned variables - are decided through the table. Not decided (D7/D8): implementations of the datastore/keystore interfaces outside the module; that the OwnMemberDevice whose Device() is passed belongs to the same group as the store. Not decided: that every envelope opens at a receiver (C01/C02), behaviour under real parallel runs, datastore atomicity.",
+		Explanation: "Decides, for every schedule at once, the locking and arithmetic shape that makes counters unique: (D1) in SealEnvelope the read of the own chain key, the sealing (secretbox.Seal, Sign), the write of the next precomputed key and the write of the advanced chain key all happen with the secret store's message mutex write-held, acquired once before the first of them, with no release of that mutex anywhere in the code reachable from those steps (when one call of SealEnvelope carries the whole read-seal-store sequence - its tail handed as a closure to a lock helper - the steps are located in the function behind that call and the lock context is the helper's at the call of its func parameter; the helper's own deferred Unlock runs after the steps); (D3) every Put on the chain-key namespace that can overwrite an existing entry is reached only on call paths holding that write lock (creation puts, dominated by the 'no chain key stored' outcome of a lookup - made in the same function or handed on by a read-only helper as its (alreadyThere=false, err=nil) outcome, each such return of the helper being itself on the miss side - are exempt: they cannot overwrite); (D4) the updater of the stored chain key is monotone: evaluated abstractly over the orderings {new<stored, new=stored, new>stored} it never writes when new<stored and always writes when new>stored; (D6) the own chain key is looked up, generated on a miss and stored inside one write-locked critical section; the updater fails when it cannot read the stored key; (D5) the counter sealed into the headers and used as nonce is the stored counter + 1 and the chain key stored afterwards carries stored counter + 1 (same increment on both sides); (D7) the own chain key is created only when its lookup reported exactly the 'missing' sentinel (tested on the lookup's error directly, or handed on by a module helper as its 'not found, no error' outcome, every such return of the helper being itself on the sentinel side and the helper's error tested nil by the creator), and every function behind that lookup returns the sentinel only on the datastore's own not-found outcome (err == / errors.Is datastore.ErrNotFound) or after a successful read - an I/O fault or a cancelled context surfaces as a different error, so a transient read fault can never replace an advanced chain key by a fresh one at counter 0; (D8) the chain moves forward by SealEnvelope only: on every call path from OpenEnvelopePayload to an overwriting Put of a chain key the update is skipped when the sender decoded from headers.DevicePk equals the own-device parameter (or runs when that parameter is nil), and every module call of OpenEnvelopePayload passes as that parameter the Device() key of an OwnMemberDevice (through locals, fields and helpers) or nil - never Member() or a foreign key. A call through a local table of closures (a local composite literal of statically known functions that is only indexed, e.g. steps := []func() error{...}; for _, st := range steps { st() }) is resolved to its elements: the module call graph is completed with these edges before any rule runs, so lock contexts (D1/D3/D6), effect summaries and the D8 guard - which may sit inside an element closure and refer to captured, singly-assigned variables - are decided through the table. Not decided (D7/D8): implementations of the datastore/keystore interfaces outside the module; that the OwnMemberDevice whose Device() is passed belongs to the same group as the store. Not decided: that every envelope opens at a receiver (C01/C02), behaviour under real parallel runs, datastore atomicity.",
 		Trusted:     []string{"go/ssa (x/tools v0.29.0)", "sync.RWMutex semantics", "lock identity by owner type + field (one message mutex per secret store)", "go-datastore: Get returns ErrNotFound (possibly wrapped) iff the key is absent", "errcode.Is compares the top-level code only"},
 		Assumptions: []string{"a secret store is not shared between two datastores; the datastore's Put is atomic per key"},
 		Floors:      map[string]int{"D1": 3, "D3": 3, "D4": 4, "D5": 3, "D6": 1, "D7": 2, "D8": 2},
@@ -95,24 +95,95 @@ func unlockedOnSomePath(w *World, instr ssa.Instruction, class string, exempt fu
 }
 
 // creationGuarded: instr is dominated by the miss (error) outcome of a lookup on the
-// chain-key namespace in the same function: the entry does not exist, nothing is overwritten.
+// chain-key namespace: the entry does not exist, nothing is overwritten. The lookup is either
+// in the same function, or in a read-only module helper that hands its outcome on as an
+// (alreadyThere bool, err error) pair: then instr must be on the helper's "no error" side and
+// on its "false" side, and inside the helper every success return that may carry false must
+// itself be dominated by the miss outcome of the lookup (recursively).
 func creationGuarded(w *World) func(ssa.Instruction) bool {
-	ei := w.effects()
 	return func(in ssa.Instruction) bool {
-		fn := in.Parent()
-		for _, s := range ei.sitesWith(fn, eff("Get", nsChainKey)) {
-			v := errVerdict(s.Instr)
-			if v == nil || !s.pureLookup() {
-				continue
-			}
+		return c09CreationGuardedAt(w, in.Parent(), in.Block(), 0)
+	}
+}
+
+func c09CreationGuardedAt(w *World, fn *ssa.Function, blk *ssa.BasicBlock, depth int) bool {
+	if depth > 3 {
+		return false
+	}
+	ei := w.effects()
+	for _, s := range ei.sitesWith(fn, eff("Get", nsChainKey)) {
+		if !s.pureLookup() {
+			continue
+		}
+		v := errVerdict(s.Instr)
+		if v != nil {
 			for _, e := range edgesOfVerdict(v).Reject {
-				if edgeDominates(e, in.Block()) {
+				if edgeDominates(e, blk) {
 					return true
 				}
 			}
 		}
-		return false
+		// outcome handed on by a read-only helper
+		if s.Direct {
+			continue
+		}
+		if _, isCall := s.Instr.(*ssa.Call); !isCall {
+			continue
+		}
+		sig := s.Instr.Common().Signature()
+		errIdx := errResultIndex(sig)
+		if errIdx >= 0 {
+			okSide := false
+			if v != nil {
+				for _, a := range edgesOfVerdict(v).Accept {
+					if edgeDominates(a, blk) {
+						okSide = true
+					}
+				}
+			}
+			if !okSide {
+				continue
+			}
+		}
+		for i := 0; i < sig.Results().Len(); i++ {
+			if i == errIdx || !isBoolType(sig.Results().At(i).Type()) {
+				continue
+			}
+			bv := resultValue(s.Instr, i)
+			if bv == nil {
+				continue
+			}
+			falseSide := false
+			for _, e := range edgesOfVerdict(bv).Reject {
+				if edgeDominates(e, blk) {
+					falseSide = true
+				}
+			}
+			if !falseSide {
+				continue
+			}
+			all, n := true, 0
+			for _, h := range calleesAt(w, fn, s.Instr) {
+				for _, r := range returnsOf(h) {
+					rr := retResults(r)
+					if i >= len(rr) || !isSuccessReturn(r) {
+						continue
+					}
+					if b, isC := constBool(rr[i]); isC && b {
+						continue // "already there": the caller does not write
+					}
+					n++
+					if _, isC := constBool(rr[i]); !isC || !c09CreationGuardedAt(w, h, r.Block(), depth+1) {
+						all = false
+					}
+				}
+			}
+			if all && n > 0 {
+				return true
+			}
+		}
 	}
+	return false
 }
 
 func runC09(c *Ctx) {
@@ -127,78 +198,12 @@ func runC09(c *Ctx) {
 		return
 	}
 	c.analysed(seal)
-	// ---- D1: one critical section in SealEnvelope
-	type step struct {
-		name string
-		site ssa.CallInstruction
-	}
-	var steps []step
-	getChain, putPre, putChain := eff("Get", nsChainKey), eff("Put|Commit", nsPrecomputed), eff("Put", nsChainKey)
-	for _, s := range ei.sitesIn(seal) {
-		switch {
-		case s.has(putChain):
-			steps = append(steps, step{"store-chain-key", s.Instr})
-		case s.has(putPre):
-			steps = append(steps, step{"store-next-key", s.Instr})
-		case s.has(getChain):
-			steps = append(steps, step{"read-chain-key", s.Instr})
-		}
-	}
-	for _, e := range w.callGraph().callees[seal] {
-		if _, isCall := e.Site.(*ssa.Call); !isCall {
-			continue
-		}
-		if reachesCallee(w, e.Callee, keySBSeal) {
-			steps = append(steps, step{"seal", e.Site})
-		}
-	}
-	for _, ci := range callsIn(seal, keyIs(keySBSeal, keySign)) {
-		steps = append(steps, step{"seal", ci})
-	}
-	kinds := map[string]bool{}
-	for _, st := range steps {
-		kinds[st.name] = true
-		held := li.heldAt(st.site.(ssa.Instruction))
-		c.check(held.holds(class, 'W'), "D1", fnName(seal)+"+"+st.name, posOf(st.site),
-			"step runs with "+class+" write-held", fmt.Sprintf("step %q runs without %s write-held (held: %v): two concurrent senders can read the same counter", st.name, class, held.list()))
-	}
-	for _, need := range []string{"read-chain-key", "seal", "store-chain-key"} {
-		if !kinds[need] {
-			c.fail("D1", fnName(seal)+"+"+need, seal.Pos(), "step %q not found in SealEnvelope: the send path no longer reads/seals/stores under one lock", need)
-		}
-	}
-	// no release of the message mutex in anything reachable from the locked steps
-	for _, st := range steps {
-		for f := range w.reachableFuncs(calleesAt(w, seal, st.site), 6) {
-			for _, b := range f.Blocks {
-				for _, in := range b.Instrs {
-					ci, ok := in.(ssa.CallInstruction)
-					if !ok {
-						continue
-					}
-					if op, ok := lockOpOf(ci); ok && op.Class == class && !op.Acquire {
-						c.fail("D1", fnName(seal)+"+"+st.name+"+releases", posOf(ci), "%s releases %s while SealEnvelope relies on holding it", fnName(f), class)
-					}
-				}
-			}
-		}
-	}
-	// exactly: the lock is acquired before the first step and not released in SealEnvelope before the last
-	for _, b := range seal.Blocks {
-		for _, in := range b.Instrs {
-			ci, ok := in.(ssa.CallInstruction)
-			if !ok {
-				continue
-			}
-			if op, ok := lockOpOf(ci); ok && op.Class == class && !op.Acquire && !op.Deferred {
-				// a manual unlock is fine only if no step can execute after it
-				for _, st := range steps {
-					if instrReaches(in, st.site.(ssa.Instruction)) {
-						c.fail("D1", fnName(seal)+"+early-unlock", posOf(ci), "the message mutex is released before step %q", st.name)
-					}
-				}
-			}
-		}
+	// ---- D1: one critical section in SealEnvelope. The steps are looked for in SealEnvelope
+	// itself or, when one call carries the whole read-seal-store sequence (the tail of the
+	// function handed as a closure to a lock helper), in the function behind that call.
+	putChain := eff("Put", nsChainKey)
+	for _, frame := range c09SealFrames(w, seal) {
+		c09CheckSealFrame(c, seal, frame, class)
 	}
 
 	// ---- D3: every overwriting Put[chainKey] is write-locked on all call paths
@@ -2164,4 +2169,161 @@ func c09DerivesFromDevicePk(v ssa.Value, depth int, seen map[ssa.Value]bool) boo
 		}
 	}
 	return false
+}
+
+// c09SealKinds: which of the three steps of a send (read the chain key, seal, store the
+// chain key) the call site can perform.
+func c09SealKinds(w *World, fn *ssa.Function, s effectSite) (read, sealing, store bool) {
+	read = s.has(eff("Get", nsChainKey))
+	store = s.has(eff("Put", nsChainKey))
+	for _, cal := range calleesAt(w, fn, s.Instr) {
+		if reachesCallee(w, cal, keySBSeal) {
+			sealing = true
+		}
+	}
+	return
+}
+
+// c09SealFrames: the function(s) in which the steps of SealEnvelope are separate call sites.
+// Starting at SealEnvelope: when exactly one call site carries all three steps and no other
+// site carries any of them, the critical section lives behind that call (a lock helper
+// running the tail of the function as a closure): continue in its callees.
+func c09SealFrames(w *World, seal *ssa.Function) []*ssa.Function {
+	ei := w.effects()
+	var out []*ssa.Function
+	seen := map[*ssa.Function]bool{}
+	var visit func(fn *ssa.Function, depth int)
+	visit = func(fn *ssa.Function, depth int) {
+		if seen[fn] {
+			return
+		}
+		seen[fn] = true
+		var whole []effectSite
+		others := 0
+		for _, s := range ei.sitesIn(fn) {
+			r, sl, st := c09SealKinds(w, fn, s)
+			switch {
+			case r && sl && st:
+				whole = append(whole, s)
+			case r || st:
+				others++
+			}
+		}
+		// sealing without effects (no datastore access) is not an effect site: count direct ones
+		for _, e := range w.callGraph().callees[fn] {
+			if _, isCall := e.Site.(*ssa.Call); isCall && len(ei.summaryOf(e.Callee)) == 0 && reachesCallee(w, e.Callee, keySBSeal) {
+				others++
+			}
+		}
+		if len(callsIn(fn, keyIs(keySBSeal))) > 0 {
+			others++
+		}
+		if depth < 4 && len(whole) == 1 && others == 0 {
+			n := 0
+			for _, cal := range calleesAt(w, fn, whole[0].Instr) {
+				sum := ei.summaryOf(cal)
+				hasR, hasS := false, false
+				for e := range sum {
+					if eff("Get", nsChainKey)(e) {
+						hasR = true
+					}
+					if eff("Put", nsChainKey)(e) {
+						hasS = true
+					}
+				}
+				if hasR && hasS && reachesCallee(w, cal, keySBSeal) {
+					n++
+					visit(cal, depth+1)
+				}
+			}
+			if n > 0 {
+				return
+			}
+		}
+		out = append(out, fn)
+	}
+	visit(seal, 0)
+	return out
+}
+
+// c09CheckSealFrame (D1) checks the steps found in frame (SealEnvelope or the function that
+// holds its critical section); constructs are named after SealEnvelope.
+func c09CheckSealFrame(c *Ctx, seal, frame *ssa.Function, class string) {
+	w := c.W
+	ei := w.effects()
+	li := w.locks()
+	c.analysed(frame)
+	type step struct {
+		name string
+		site ssa.CallInstruction
+	}
+	var steps []step
+	getChain, putPre, putChain := eff("Get", nsChainKey), eff("Put|Commit", nsPrecomputed), eff("Put", nsChainKey)
+	for _, s := range ei.sitesIn(frame) {
+		switch {
+		case s.has(putChain):
+			steps = append(steps, step{"store-chain-key", s.Instr})
+		case s.has(putPre):
+			steps = append(steps, step{"store-next-key", s.Instr})
+		case s.has(getChain):
+			steps = append(steps, step{"read-chain-key", s.Instr})
+		}
+	}
+	for _, e := range w.callGraph().callees[frame] {
+		if _, isCall := e.Site.(*ssa.Call); !isCall {
+			continue
+		}
+		if reachesCallee(w, e.Callee, keySBSeal) {
+			steps = append(steps, step{"seal", e.Site})
+		}
+	}
+	for _, ci := range callsIn(frame, keyIs(keySBSeal, keySign)) {
+		steps = append(steps, step{"seal", ci})
+	}
+	kinds := map[string]bool{}
+	for _, st := range steps {
+		kinds[st.name] = true
+		held := li.heldAt(st.site.(ssa.Instruction))
+		c.check(held.holds(class, 'W'), "D1", fnName(seal)+"+"+st.name, posOf(st.site),
+			"step runs with "+class+" write-held", fmt.Sprintf("step %q runs without %s write-held (held: %v): two concurrent senders can read the same counter", st.name, class, held.list()))
+	}
+	for _, need := range []string{"read-chain-key", "seal", "store-chain-key"} {
+		if !kinds[need] {
+			c.fail("D1", fnName(seal)+"+"+need, frame.Pos(), "step %q not found in %s: the send path no longer reads/seals/stores under one lock", need, fnName(frame))
+		}
+	}
+	// no release of the message mutex in anything reachable from the locked steps
+	for _, st := range steps {
+		for f := range w.reachableFuncs(calleesAt(w, frame, st.site), 6) {
+			for _, b := range f.Blocks {
+				for _, in := range b.Instrs {
+					ci, ok := in.(ssa.CallInstruction)
+					if !ok {
+						continue
+					}
+					if op, ok := lockOpOf(ci); ok && op.Class == class && !op.Acquire {
+						c.fail("D1", fnName(seal)+"+"+st.name+"+releases", posOf(ci), "%s releases %s while SealEnvelope relies on holding it", fnName(f), class)
+					}
+				}
+			}
+		}
+	}
+	// exactly: the lock is acquired before the first step and not released in SealEnvelope before the last
+	for _, b := range frame.Blocks {
+		for _, in := range b.Instrs {
+			ci, ok := in.(ssa.CallInstruction)
+			if !ok {
+				continue
+			}
+			if op, ok := lockOpOf(ci); ok && op.Class == class && !op.Acquire && !op.Deferred {
+				// a manual unlock is fine only if no step can execute after it
+				for _, st := range steps {
+					if instrReaches(in, st.site.(ssa.Instruction)) {
+						c.fail("D1", fnName(seal)+"+early-unlock", posOf(ci), "the message mutex is released before step %q", st.name)
+					}
+				}
+			}
+		}
+	}
+
 }
